@@ -357,7 +357,7 @@ pub fn run(tier: &str, seed: u64, replay: Option<String>) -> i32 {
         level: "fault_enumeration".into(),
         evaluations,
         distinct_nontrivial: distinct,
-        rule: "every line of every shipped .ctehexml/.cte/KyG/.tbl file and of a few generated projects x edit kinds {line deleted, duplicated, truncated after / at a delimiter (thorough: mid-line), block removed / duplicated, quoted name renamed (also with a non-ASCII character), reference retargeted to another existing definition, delimiter dropped (quotes, '=', parentheses, comma, semicolon, '<', '>'), number->text, number->out-of-range value, thorough: byte flip, CRLF flip}; the lines that open or close a CDATA section have per-file cells; thorough runs up to 150 per (file kind x block type x attribute x edit kind [x out-of-range value]) cell (VERIF_C19_PER_CELL; most cells are then complete; VERIF_C19_FULL=1 runs every variant), quick a seeded sample of 3 per cell. A case is non-trivial and distinct when the damaged text differs from the shipped file and its content hash differs from every other variant run at the same level".into(),
+        rule: "every line of every shipped .ctehexml/.cte/KyG/.tbl file and of a few generated projects x edit kinds {line deleted, duplicated, truncated after / at a delimiter (thorough: mid-line), block removed / duplicated, quoted name renamed (also with a non-ASCII character in front, and with one of its last six characters made a two-byte character: cells per alphabetic prefix of the name), reference retargeted to another existing definition, delimiter dropped (quotes, '=', parentheses, '<', '>', and every ',' / ';' of the line up to the 16th, each with its own cell), number->text, number->out-of-range value, thorough: byte flip, CRLF flip}; the lines that open or close a CDATA section have per-file cells; thorough runs up to 150 per (file kind x block type x attribute x edit kind [x out-of-range value]) cell (VERIF_C19_PER_CELL; most cells are then complete; VERIF_C19_FULL=1 runs every variant), quick a seeded sample of 3 per cell. A case is non-trivial and distinct when the damaged text differs from the shipped file and its content hash differs from every other variant run at the same level".into(),
         samples,
         exhaustive,
         extra,
